@@ -554,7 +554,15 @@ class Ctx:
             if not ok:
                 self.proof_ok = False
                 return False, "table extraction failed: " + msg
-            ok, log, dt = coq_make(["props/%s.vo" % pid] + list(extra_targets))
+            # composition layers (theorems that transfer this property's characterisation to the
+            # pipeline models) are part of the obligations of the properties listed in COMPOSE.json
+            compose = []
+            try:
+                cj = json.load(open(os.path.join(VERIF, "harness", "props", "COMPOSE.json")))
+                compose = [n for n, pids in cj.items() if pid in pids and os.path.exists(os.path.join(COQ, "props", n + ".v"))]
+            except Exception:
+                compose = []
+            ok, log, dt = coq_make(["props/%s.vo" % pid] + ["props/%s.vo" % n for n in compose] + list(extra_targets))
             if not ok:
                 self.proof_ok = False
                 return False, log
@@ -562,6 +570,12 @@ class Ctx:
             ok, out, dt2 = coqc_file(props)
         names = count_obligations(props)
         closure = required_proof_files(props)
+        for n in compose:
+            cp_ = os.path.join(COQ, "props", n + ".v")
+            names += ["%s.%s" % (n, x) for x in count_obligations(cp_)]
+            for q in required_proof_files(cp_):
+                if q not in closure:
+                    closure.append(q)
         lemma_names = []
         for p in closure:
             lemma_names += count_obligations(p)
